@@ -38,6 +38,9 @@ def apply():
     _applied = True
     import migen.fhdl.tracer as tr
     tr.get_var_name = _get_var_name
+    # Signal names are irrelevant for simulation; walking the Python stack for every Signal() is a third of the
+    # DUT build time.  (CSR/AutoCSR naming uses get_obj_var_name/get_var_name, which stay functional.)
+    tr.trace_back = lambda varname=None: [("s", 0)] if varname is None else [(varname, 0)]
     import litex.soc.interconnect.csr as csr
     _orig = csr.CSR.__init__
 
